@@ -3,3 +3,5 @@ import DDP.Impl.Scanner
 import DDP.Impl.OrderedMap
 import DDP.Impl.TokenKey
 import DDP.Impl.Types
+import DDP.Impl.Literal
+import DDP.Spec.Literal
